@@ -132,7 +132,12 @@ class DensityInterp(TermInterp):
             op = type(e.ops[0])
             num = lambda v: isinstance(v, (int, sp.Rational, sp.Integer, float)) and not isinstance(v, bool)
             fn = {ast.Eq: lambda a, b: a == b, ast.NotEq: lambda a, b: a != b, ast.Lt: lambda a, b: a < b, ast.LtE: lambda a, b: a <= b,
-                  ast.Gt: lambda a, b: a > b, ast.GtE: lambda a, b: a >= b}[op]
+                  ast.Gt: lambda a, b: a > b, ast.GtE: lambda a, b: a >= b}.get(op)
+            if fn is None:
+                if op in (ast.Is, ast.IsNot) and l is not None and r is not None and not isinstance(l, (int, float, str, bool, tuple)):
+                    # identity of two array values: names bound by plain assignment share the interpreter's value object
+                    return (l is r) == (op is ast.Is)
+                return super().expr(e)
             if num(l) and num(r):
                 return bool(fn(sp.nsimplify(l), sp.nsimplify(r)))
             if isinstance(l, tuple) and num(r) and all(isinstance(x, int) for x in l):
@@ -470,6 +475,10 @@ def make_handler(f, ctx, symmetric=True):
         if isinstance(e.func, ast.Attribute) and e.func.attr in ("clip", "min"):
             base = interp.expr(e.func.value)
             if isinstance(base, Terms):
+                if e.func.attr == "clip" and not any(p_.startswith("threshold") for p_ in interp.func.params):
+                    # only the two routines with the documented negative-value threshold clip by definition (their clean-up region is
+                    # decided by THRESH); anywhere else a clip is a non-linear step on the values
+                    return NotImplemented
                 return base if e.func.attr == "clip" else "MIN-MARKER"
         return NotImplemented
 
@@ -876,8 +885,9 @@ def run(repo, R):
             ret = it.returns[0][1]
             want = G(o1, o2, False)
             R.check(isinstance(ret, Terms) and ret.equals(want), "TERM", f.site, f"G({o1},{o2})",
-                    f"evaluate_deriv_reduced_density_matrix(p, q) is not sum_ab P_ab d^p phi_a d^q phi_b: {ret}", where=f.where(),
-                    expected=str(want), found=str(ret))
+                    f"evaluate_deriv_reduced_density_matrix(p, q) is not sum_ab P_ab d^p phi_a d^q phi_b: {ret}"
+                    + ("; non-linear step: " + "; ".join(getattr(ret, "nonlinear", ())) if getattr(ret, "nonlinear", ()) else ""), where=f.where(),
+                    expected=str(want), found=str(ret) + ("  [" + "; ".join(getattr(ret, "nonlinear", ())) + "]" if getattr(ret, "nonlinear", ()) else ""))
     guarded("evaluate_deriv_reduced_density_matrix", rdm)
 
     def grad():
